@@ -200,7 +200,7 @@ def prove(n, budget=600, log=None, nodes=None, memo=None, depth=0):
         return memo[n]
     if not is_prp(n):
         return None
-    rng = random.Random(n % (1 << 61))
+    rng = random.Random((n % (1 << 61)) ^ int(budget * 1000003))
     deadline = time.time() + budget
     fs, rest = factor(n - 1, deadline, rng, log)
     primes = sorted(fs, reverse=True)
